@@ -243,3 +243,7 @@ def check(ctx):
     init = ctx.sites(deliver, f"{SR} = False")
     ctx.ob("R05-d", deliver, "a delivery round starts with nothing to retry", len(init) == 1 and deliver.node.body and any(x is init[0][0] for x in deliver.node.body[:3]),
            detail="" if init else "should_retry is not initialised to False", by=(f"{SR} = False",))
+
+    # ---- R05-e the cancellation classifier used while leaving scopes and task groups cannot fail or over-match ----------------------
+    from .common import classifier_total
+    classifier_total(ctx, "R05-e")
